@@ -32,6 +32,7 @@ def main():
     violations = []      # dicts: kind, what, replay (path), found_input (bool)
     known_hits = []
     notes = []
+    refdir = None
     cov = {'obligations': 0, 'discharged': 0, 'checker_cmd': '', 'trusted_base': [], 'samples': []}
 
     def violation(kind, what, payload, found_input):
@@ -49,6 +50,7 @@ def main():
         # 1. translation
         tinfo = vlib.translate()
         cov['translation'] = tinfo
+        cov['translation_differs_from_reference'] = vlib.generated_differs_from_reference()
         # 2. obligations
         modules = P.get('modules', [])
         ok_drv, log = vlib.lake_build(['driver'])
@@ -100,6 +102,20 @@ def main():
         cov['axioms_used'] = sorted({a for al in ax_report.values() if al for a in al})
         cov['checker_cmd'] = 'cd lean && lake build ' + ' '.join(modules) + ' && lake env lean <#print axioms of every theorem>' + (' && lake env leanchecker <module>' if tier == 'thorough' else '')
         # 4.-6. property-specific dynamic part
+        refdir = None
+        if not ok_drv or not all(built.get(m) for m in modules):
+            # a proof obligation (or the model itself) broke against the current translation: the search for a
+            # failing input uses the model over the committed reference translation - the one the theorems were
+            # last proved about - as the specification
+            changed = vlib.generated_differs_from_reference()
+            if changed:
+                refdir, rlog = vlib.build_reference_driver()
+                if refdir:
+                    ok_drv = True
+                    notes.append('failing-input search ran against the reference model (changed translation: %s)' % ', '.join(changed))
+                    cov['reference_model_used'] = changed
+                else:
+                    notes.append('reference model did not build: ' + rlog[-300:])
         if ok_drv:
             ctx = {'work': work, 'tier': tier, 'seed': seed, 'violation': violation, 'known_hits': known_hits,
                    'cov': cov, 'notes': notes, 'replay': a.replay, 'prop': prop}
@@ -136,6 +152,8 @@ def main():
         print('OK property=%s tier=%s obligations=%d discharged=%d evaluations=%d wall=%.1fs' %
               (prop, tier, cov['obligations'], cov['discharged'], cov.get('evaluations', 0), wall))
     shutil.rmtree(work, ignore_errors=True)
+    if refdir:
+        shutil.rmtree(refdir, ignore_errors=True)
     return rc
 
 if __name__ == '__main__':
